@@ -2,7 +2,7 @@
 # usage: runsem.py file.sc "args" [expected-stdout]: runs S4 and S5 dumps on the named machine
 import subprocess, sys, os, re, tempfile
 H='/verif/harness/target/debug/scc-harness'
-M='/tmp/agent_m3/lean/.lake/build/bin/m3test'
+M=os.environ.get('M3TEST','/verif/lean/.lake/build/bin/m3test')
 def stages(f, upto=5):
     r=subprocess.run([H],input=f"stages {f} {upto}\n",capture_output=True,text=True)
     d={}
